@@ -116,7 +116,7 @@ func tokenize(s string) ([]token, error) {
 		case unicode.IsLetter(c) || c == '_':
 			bt, bl := readBareword(s[i:])
 			tnr := tBare
-			if n, ok := keywords[strings.ToUpper(bt)]; ok {
+			if n, ok := keywords[upperASCII(bt)]; ok {
 				tnr = n
 			}
 			res = append(res, stoken(tnr, bt))
@@ -250,4 +250,15 @@ func readQuoted(close rune, s string, allowEscape bool) (string, int) {
 		}
 	}
 	return "", -1
+}
+
+// SQLite recognizes keywords without regard to the case of ASCII letters only.
+func upperASCII(s string) string {
+	b := []byte(s)
+	for i, c := range b {
+		if 'a' <= c && c <= 'z' {
+			b[i] = c - ('a' - 'A')
+		}
+	}
+	return string(b)
 }
